@@ -22,7 +22,7 @@ open Hub.Generated (Status AmountForBytes GetProportionOfCoin Gigabyte)
 open Hub.Generated.Keys
 
 /-- Key uniqueness after a chain of `set`/`erase` updates. -/
-macro "nodup_tac" : tactic =>
+local macro "nodup_tac" : tactic =>
   `(tactic| (refine ⟨?_, ?_, ?_, ?_, ?_, ?_, ?_, ?_, ?_, ?_, ?_⟩ <;>
       (repeat' first | assumption | apply Tbl.nodup_set | apply Tbl.nodup_erase)))
 
@@ -293,7 +293,7 @@ theorem KeyedV.of_get {v v' : SubView} (hk : KeyedV v)
     · exact e
 
 /-- `KeyedV` after a chain of `set`/`erase` at own ids. -/
-macro "keyed_tac" hk:term : tactic =>
+local macro "keyed_tac" hk:term : tactic =>
   `(tactic| (refine KeyedV.of_get $hk ?_ ?_ ?_ <;> intros <;> rename_i hget <;>
       simp only [Tbl.get_set, Tbl.get_erase] at hget <;> (try split_ifs at hget) <;>
       first
@@ -310,7 +310,7 @@ theorem createAlloc_subIdx {s : State} {sub : Sub} {a : Alloc} (hf : Fresh s sub
   · intro i hne
     unfold setAllocation insertSub
     cases hk : sub.kind <;> constructor <;> intros <;>
-      simp [Tbl.has_set, Tbl.get_set, ha, hne, Ne.symm hne]
+      simp [Tbl.has_set_B, Tbl.get_set, ha, hne, Ne.symm hne]
   · have f1 := hf.subs; have f2 := hf.subQ; have f3 := hf.subForAcc; have f4 := hf.subForNode; have f5 := hf.subForPlan
     have f6 := hf.allocs; have f7 := hf.payouts; have f8 := hf.payQ; have f9 := hf.payForAcc; have f10 := hf.payForNode
     have f11 := hf.payForAccNode
@@ -321,10 +321,10 @@ theorem createAlloc_subIdx {s : State} {sub : Sub} {a : Alloc} (hf : Fresh s sub
     | node n gb hr dep =>
       have hr0 : hr = 0 := by simpa [isHourly, hk] using hh
       constructor <;> intros <;>
-        simp_all [Tbl.has_set, Tbl.get_set, isHourly, isPlanSub, Sub.hourlyOn]
+        simp_all [Tbl.has_set_B, Tbl.get_set, isHourly, isPlanSub, Sub.hourlyOn]
     | plan pid d =>
       constructor <;> intros <;>
-        simp_all [Tbl.has_set, Tbl.get_set, isHourly, isPlanSub, Sub.hourlyOn]
+        simp_all [Tbl.has_set_B, Tbl.get_set, isHourly, isPlanSub, Sub.hourlyOn]
   · obtain ⟨n1, n2, n3, n4, n5, n6, n7, n8, n9, n10, n11⟩ := hi.nodup
     unfold setAllocation insertSub
     cases sub.kind <;> nodup_tac
@@ -337,7 +337,7 @@ theorem createPayout_subIdx {s : State} {sub : Sub} {p : Payout} (hf : Fresh s s
   · intro i hne
     unfold insertPayout insertSub
     rw [hk]
-    constructor <;> intros <;> simp [emit, Tbl.has_set, Tbl.get_set, hp, hne, Ne.symm hne]
+    constructor <;> intros <;> simp [emit, Tbl.has_set_B, Tbl.get_set, hp, hne, Ne.symm hne]
   · have f1 := hf.subs; have f2 := hf.subQ; have f3 := hf.subForAcc; have f4 := hf.subForNode; have f5 := hf.subForPlan
     have f6 := hf.allocs; have f7 := hf.payouts; have f8 := hf.payQ; have f9 := hf.payForAcc; have f10 := hf.payForNode
     have f11 := hf.payForAccNode
@@ -346,7 +346,7 @@ theorem createPayout_subIdx {s : State} {sub : Sub} {p : Payout} (hf : Fresh s s
     unfold insertPayout insertSub
     rw [hk]
     constructor <;> intros <;>
-      simp_all [emit, Tbl.has_set, Tbl.get_set, isHourly, isPlanSub, Sub.hourlyOn] <;> omega
+      simp_all [emit, Tbl.has_set_B, Tbl.get_set, isHourly, isPlanSub, Sub.hourlyOn] <;> omega
   · obtain ⟨n1, n2, n3, n4, n5, n6, n7, n8, n9, n10, n11⟩ := hi.nodup
     unfold insertPayout insertSub
     rw [hk]
@@ -515,15 +515,15 @@ theorem pendingHourlyV {v : SubView} {sub sub' : Sub} {p p' : Payout} {j : Nat} 
                      payouts := v.payouts.set j p' } := by
   refine SubIdxV.local j hi ?_ ?_ ?_
   · intro i hne
-    constructor <;> intros <;> simp [Tbl.has_set, Tbl.has_erase, Tbl.get_set, Tbl.get_erase, hne, Ne.symm hne]
+    constructor <;> intros <;> simp [Tbl.has_set_B, Tbl.has_erase_B, Tbl.get_set, Tbl.get_erase, hne, Ne.symm hne]
   · obtain ⟨a1, a2, a3, a4, a5, a6, a7, a8, a9, a10, a11, a12, a13, a14⟩ := hi.ids j
-    have hsh : v.subs.has j = true := Tbl.has_of_get hsub
-    have hph : v.payouts.has j = true := Tbl.has_of_get hp
+    have hsh : v.subs.has j = true := Tbl.has_of_get_B hsub
+    have hph : v.payouts.has j = true := Tbl.has_of_get_B hp
     simp [hsub, hp, hsh, hph, hst] at a1 a2 a3 a4 a5 a6 a7 a8 a9 a10 a11 a12 a13 a14
     have k1 : isHourly sub' = isHourly sub := by unfold isHourly; rw [s2]
     have k2 : isPlanSub sub' = isPlanSub sub := by unfold isPlanSub; rw [s2]
     constructor <;> intros <;>
-      simp_all [Tbl.has_set, Tbl.has_erase, Tbl.get_set, Tbl.get_erase, Sub.hourlyOn] <;> grind
+      simp_all [Tbl.has_set_B, Tbl.has_erase_B, Tbl.get_set, Tbl.get_erase, Sub.hourlyOn] <;> grind
   · obtain ⟨n1, n2, n3, n4, n5, n6, n7, n8, n9, n10, n11⟩ := hi.nodup
     nodup_tac
 
@@ -534,16 +534,16 @@ theorem pendingPlainV {v : SubView} {sub sub' : Sub} {j : Nat} {t' : Time} (hi :
                      subQ := (v.subQ.erase (sub.inactiveAt, j)).set (t', j) () } := by
   refine SubIdxV.local j hi ?_ ?_ ?_
   · intro i hne
-    constructor <;> intros <;> simp [Tbl.has_set, Tbl.has_erase, Tbl.get_set, Tbl.get_erase, hne, Ne.symm hne]
+    constructor <;> intros <;> simp [Tbl.has_set_B, Tbl.has_erase_B, Tbl.get_set, Tbl.get_erase, hne, Ne.symm hne]
   · obtain ⟨a1, a2, a3, a4, a5, a6, a7, a8, a9, a10, a11, a12, a13, a14⟩ := hi.ids j
-    have hsh : v.subs.has j = true := Tbl.has_of_get hsub
+    have hsh : v.subs.has j = true := Tbl.has_of_get_B hsub
     simp [hsub, hsh, hh] at a1 a2 a3 a4 a5 a6 a7 a8 a9 a10 a11 a12 a13 a14
     have hpn : v.payouts.get j = none := Tbl.get_none_of_has a9
     simp [hpn] at a10 a11 a12 a13 a14
     have k1 : isHourly sub' = isHourly sub := by unfold isHourly; rw [s2]
     have k2 : isPlanSub sub' = isPlanSub sub := by unfold isPlanSub; rw [s2]
     constructor <;> intros <;>
-      simp_all [Tbl.has_set, Tbl.has_erase, Tbl.get_set, Tbl.get_erase, Sub.hourlyOn] <;> grind
+      simp_all [Tbl.has_set_B, Tbl.has_erase_B, Tbl.get_set, Tbl.get_erase, Sub.hourlyOn] <;> grind
   · obtain ⟨n1, n2, n3, n4, n5, n6, n7, n8, n9, n10, n11⟩ := hi.nodup
     nodup_tac
 
@@ -619,19 +619,19 @@ theorem allocateV {v : SubView} {sub : Sub} {j : Nat} {frm toA : Addr} {fa ta : 
     unfold isPlanSub at hpl; unfold isHourly; split at hpl <;> simp_all
   refine SubIdxV.local j hi ?_ ?_ ?_
   · intro i hne
-    constructor <;> intros <;> (try split) <;> simp [Tbl.has_set, Tbl.has_erase, Tbl.get_set, Tbl.get_erase, hne, Ne.symm hne]
+    constructor <;> intros <;> (try split) <;> simp [Tbl.has_set_B, Tbl.has_erase_B, Tbl.get_set, Tbl.get_erase, hne, Ne.symm hne]
   · obtain ⟨a1, a2, a3, a4, a5, a6, a7, a8, a9, a10, a11, a12, a13, a14⟩ := hi.ids j
-    have hsh : v.subs.has j = true := Tbl.has_of_get hsub
+    have hsh : v.subs.has j = true := Tbl.has_of_get_B hsub
     simp [hsub, hsh, hh, hpl] at a1 a2 a3 a4 a5 a6 a7 a8 a9 a10 a11 a12 a13 a14
     cases hto : v.allocs.get (j, toA) with
     | none =>
       have hto' : v.allocs.has (j, toA) = false := Tbl.has_false_of_get hto
       constructor <;> intros <;>
-        simp_all [Tbl.has_set, Tbl.has_erase, Tbl.get_set, Tbl.get_erase, Sub.hourlyOn] <;> grind
+        simp_all [Tbl.has_set_B, Tbl.has_erase_B, Tbl.get_set, Tbl.get_erase, Sub.hourlyOn] <;> grind
     | some old =>
-      have hto' : v.allocs.has (j, toA) = true := Tbl.has_of_get hto
+      have hto' : v.allocs.has (j, toA) = true := Tbl.has_of_get_B hto
       constructor <;> intros <;>
-        simp_all [Tbl.has_set, Tbl.has_erase, Tbl.get_set, Tbl.get_erase, Sub.hourlyOn] <;> grind
+        simp_all [Tbl.has_set_B, Tbl.has_erase_B, Tbl.get_set, Tbl.get_erase, Sub.hourlyOn] <;> grind
   · obtain ⟨n1, n2, n3, n4, n5, n6, n7, n8, n9, n10, n11⟩ := hi.nodup
     refine ⟨?_, ?_, ?_, ?_, ?_, ?_, ?_, ?_, ?_, ?_, ?_⟩ <;> (try split) <;>
       (repeat' first | assumption | apply Tbl.nodup_set | apply Tbl.nodup_erase)
@@ -658,7 +658,7 @@ theorem subAllocate_subIdx {s s' : State} {frm toA : Addr} {id : Nat} {bytes : I
 
 /-! ### the hourly payout step -/
 
-theorem payoutAdvance_id (p : Payout) : (payoutAdvance p).id = p.id := by unfold payoutAdvance; simp only []; split <;> rfl
+theorem payoutAdvance_id_B (p : Payout) : (payoutAdvance p).id = p.id := by unfold payoutAdvance; simp only []; split <;> rfl
 theorem payoutAdvance_addr (p : Payout) : (payoutAdvance p).addr = p.addr := by unfold payoutAdvance; simp only []; split <;> rfl
 theorem payoutAdvance_node (p : Payout) : (payoutAdvance p).node = p.node := by unfold payoutAdvance; simp only []; split <;> rfl
 theorem payoutAdvance_hours (p : Payout) : (payoutAdvance p).hours = p.hours - 1 := by
@@ -670,20 +670,20 @@ theorem payoutStepV {v : SubView} {p p' : Payout} {j : Nat} (hi : SubIdxV v) (hp
                      payouts := v.payouts.set j p' } := by
   refine SubIdxV.local j hi ?_ ?_ ?_
   · intro i hne
-    constructor <;> intros <;> (try split) <;> simp [Tbl.has_set, Tbl.has_erase, Tbl.get_set, Tbl.get_erase, hne, Ne.symm hne]
+    constructor <;> intros <;> (try split) <;> simp [Tbl.has_set_B, Tbl.has_erase_B, Tbl.get_set, Tbl.get_erase, hne, Ne.symm hne]
   · obtain ⟨a1, a2, a3, a4, a5, a6, a7, a8, a9, a10, a11, a12, a13, a14⟩ := hi.ids j
-    have hph : v.payouts.has j = true := Tbl.has_of_get hp
+    have hph : v.payouts.has j = true := Tbl.has_of_get_B hp
     obtain ⟨p0, x, hp0, _, hh, hx, hxs⟩ := (a14 p.nextAt).mp hq
     rw [hp] at hp0; simp only [Option.some.injEq] at hp0; subst hp0
-    have hsh : v.subs.has j = true := Tbl.has_of_get hx
+    have hsh : v.subs.has j = true := Tbl.has_of_get_B hx
     simp [hp, hph, hx, hsh, hxs] at a1 a2 a3 a4 a5 a6 a7 a8 a9 a10 a11 a12 a13 a14
     by_cases hpos : p'.hours > 0
     · simp only [hpos, if_true]
       constructor <;> intros <;>
-        simp_all [Tbl.has_set, Tbl.has_erase, Tbl.get_set, Tbl.get_erase, Sub.hourlyOn] <;> (try omega) <;> grind
+        simp_all [Tbl.has_set_B, Tbl.has_erase_B, Tbl.get_set, Tbl.get_erase, Sub.hourlyOn] <;> (try omega) <;> grind
     · simp only [hpos, if_false]
       constructor <;> intros <;>
-        simp_all [Tbl.has_set, Tbl.has_erase, Tbl.get_set, Tbl.get_erase, Sub.hourlyOn] <;> (try omega) <;> grind
+        simp_all [Tbl.has_set_B, Tbl.has_erase_B, Tbl.get_set, Tbl.get_erase, Sub.hourlyOn] <;> (try omega) <;> grind
   · obtain ⟨n1, n2, n3, n4, n5, n6, n7, n8, n9, n10, n11⟩ := hi.nodup
     refine ⟨?_, ?_, ?_, ?_, ?_, ?_, ?_, ?_, ?_, ?_, ?_⟩ <;> (try split) <;>
       (repeat' first | assumption | apply Tbl.nodup_set | apply Tbl.nodup_erase)
@@ -701,13 +701,13 @@ theorem payoutStep_view {s s' : State} {k : Time × Nat} (h : payoutStep s k = .
   have hfr := (sendCoinFromDepositToModule_frame h2).trans (sendCoinFromDepositToAccount_frame h3)
   refine ⟨item, hitem, ?_⟩
   rw [hfr.eq]
-  simp only [payoutAdvance_id]
+  simp only [payoutAdvance_id_B]
   split <;> rfl
 
 theorem payoutStep_keyed {s s' : State} {k : Time × Nat} (h : payoutStep s k = .ok s') (hk : Keyed s) : Keyed s' := by
   obtain ⟨item, hitem, hv⟩ := payoutStep_view h
   have hid : item.id = k.2 := hk.payouts _ _ hitem
-  have hid' := payoutAdvance_id item
+  have hid' := payoutAdvance_id_B item
   refine KeyedV.of_eq hv ?_
   keyed_tac hk
 
@@ -763,8 +763,8 @@ theorem SubIdxV.of_agree {v v' : SubView} (hi : SubIdxV v) (hag : ∀ i, AgreeAt
 theorem setAllocV {v : SubView} {k : Nat × Addr} {a a' : Alloc} (hi : SubIdxV v) (hk : v.allocs.get k = some a) :
     SubIdxV { v with allocs := v.allocs.set k a' } := by
   refine hi.of_agree (fun i => ?_) ?_
-  · have hh : v.allocs.has k = true := Tbl.has_of_get hk
-    constructor <;> intros <;> simp [Tbl.has_set]
+  · have hh : v.allocs.has k = true := Tbl.has_of_get_B hk
+    constructor <;> intros <;> simp [Tbl.has_set_B]
     rename_i b
     intro e; rw [← e]; exact hh
   · obtain ⟨n1, n2, n3, n4, n5, n6, n7, n8, n9, n10, n11⟩ := hi.nodup
@@ -869,7 +869,7 @@ theorem removeAllocs_subForAcc (l : List Addr) (s : State) (id : Nat) (k : Addr 
   | nil => simp
   | cons a rest ih =>
     rw [List.foldl_cons, ih]
-    simp only [Tbl.has_erase, List.mem_cons]
+    simp only [Tbl.has_erase_B, List.mem_cons]
     obtain ⟨k1, k2⟩ := k
     by_cases h1 : k2 = id <;> by_cases h2 : k1 ∈ rest <;> by_cases h3 : k1 = a <;> simp_all <;> grind
 
@@ -889,16 +889,16 @@ theorem removeNodePlainV {v : SubView} {item : Sub} {j : Nat} {n : Addr} {gb hr 
                      subs := v.subs.erase j } := by
   refine SubIdxV.local j hi ?_ (SubIdxAtV.of_fresh ?_) ?_
   · intro i hne
-    constructor <;> intros <;> simp [Tbl.has_set, Tbl.has_erase, Tbl.get_set, Tbl.get_erase, hne, Ne.symm hne]
+    constructor <;> intros <;> simp [Tbl.has_set_B, Tbl.has_erase_B, Tbl.get_set, Tbl.get_erase, hne, Ne.symm hne]
   · obtain ⟨a1, a2, a3, a4, a5, a6, a7, a8, a9, a10, a11, a12, a13, a14⟩ := hi.ids j
-    have hsh : v.subs.has j = true := Tbl.has_of_get hsub
+    have hsh : v.subs.has j = true := Tbl.has_of_get_B hsub
     have hh : isHourly item = false := by simp [isHourly, hk, hr0]
     have hpl : isPlanSub item = false := by simp [isPlanSub, hk]
     simp [hsub, hsh, hh, hk, hpl] at a1 a2 a3 a4 a5 a6 a7 a8 a9 a10 a11 a12 a13 a14
     have hpn : v.payouts.get j = none := Tbl.get_none_of_has a9
     simp [hpn] at a10 a11 a12 a13 a14
     constructor <;> intros <;>
-      simp_all [Tbl.has_set, Tbl.has_erase, Tbl.get_set, Tbl.get_erase] <;> grind
+      simp_all [Tbl.has_set_B, Tbl.has_erase_B, Tbl.get_set, Tbl.get_erase] <;> grind
   · obtain ⟨n1, n2, n3, n4, n5, n6, n7, n8, n9, n10, n11⟩ := hi.nodup
     nodup_tac
 
@@ -911,15 +911,15 @@ theorem removeNodeHourlyV {v : SubView} {item : Sub} {p : Payout} {j : Nat} {n :
                      payForNode := v.payForNode.erase (p.node, j) } := by
   refine SubIdxV.local j hi ?_ (SubIdxAtV.of_fresh ?_) ?_
   · intro i hne
-    constructor <;> intros <;> simp [Tbl.has_set, Tbl.has_erase, Tbl.get_set, Tbl.get_erase, hne, Ne.symm hne]
+    constructor <;> intros <;> simp [Tbl.has_set_B, Tbl.has_erase_B, Tbl.get_set, Tbl.get_erase, hne, Ne.symm hne]
   · obtain ⟨a1, a2, a3, a4, a5, a6, a7, a8, a9, a10, a11, a12, a13, a14⟩ := hi.ids j
-    have hsh : v.subs.has j = true := Tbl.has_of_get hsub
-    have hph : v.payouts.has j = true := Tbl.has_of_get hp
+    have hsh : v.subs.has j = true := Tbl.has_of_get_B hsub
+    have hph : v.payouts.has j = true := Tbl.has_of_get_B hp
     have hh : isHourly item = true := by simp [isHourly, hk, hr0]
     have hpl : isPlanSub item = false := by simp [isPlanSub, hk]
     simp [hsub, hsh, hh, hk, hpl, hp, hph, hst] at a1 a2 a3 a4 a5 a6 a7 a8 a9 a10 a11 a12 a13 a14
     constructor <;> intros <;>
-      simp_all [Tbl.has_set, Tbl.has_erase, Tbl.get_set, Tbl.get_erase] <;> grind
+      simp_all [Tbl.has_set_B, Tbl.has_erase_B, Tbl.get_set, Tbl.get_erase] <;> grind
   · obtain ⟨n1, n2, n3, n4, n5, n6, n7, n8, n9, n10, n11⟩ := hi.nodup
     nodup_tac
 
@@ -932,16 +932,16 @@ theorem removePlanV {v : SubView} {item : Sub} {j pid : Nat} {d : Denom} {A : Tb
                      allocs := A, subForAcc := B, subs := v.subs.erase j } := by
   refine SubIdxV.local j hi ?_ (SubIdxAtV.of_fresh ?_) ?_
   · intro i hne
-    constructor <;> intros <;> simp [Tbl.has_set, Tbl.has_erase, Tbl.get_set, Tbl.get_erase, hne, Ne.symm hne, hA, hB]
+    constructor <;> intros <;> simp [Tbl.has_set_B, Tbl.has_erase_B, Tbl.get_set, Tbl.get_erase, hne, Ne.symm hne, hA, hB]
   · obtain ⟨a1, a2, a3, a4, a5, a6, a7, a8, a9, a10, a11, a12, a13, a14⟩ := hi.ids j
-    have hsh : v.subs.has j = true := Tbl.has_of_get hsub
+    have hsh : v.subs.has j = true := Tbl.has_of_get_B hsub
     have hh : isHourly item = false := by simp [isHourly, hk]
     have hpl : isPlanSub item = true := by simp [isPlanSub, hk]
     simp [hsub, hsh, hh, hk, hpl] at a1 a2 a3 a4 a5 a6 a7 a8 a9 a10 a11 a12 a13 a14
     have hpn : v.payouts.get j = none := Tbl.get_none_of_has a9
     simp [hpn] at a10 a11 a12 a13 a14
     constructor <;> intros <;>
-      simp_all [Tbl.has_set, Tbl.has_erase, Tbl.get_set, Tbl.get_erase] <;> grind
+      simp_all [Tbl.has_set_B, Tbl.has_erase_B, Tbl.get_set, Tbl.get_erase] <;> grind
   · obtain ⟨n1, n2, n3, n4, n5, n6, n7, n8, n9, n10, n11⟩ := hi.nodup
     nodup_tac
 
@@ -1312,7 +1312,7 @@ theorem payoutFold_subIdx (l : List (Time × Nat)) (hl : (l.map (·.2)).Nodup) (
     have hold := hlive k' (by simp [hk'])
     obtain ⟨t', i'⟩ := k'
     simp only at hne
-    split <;> simp [Tbl.has_set, Tbl.has_erase, hid, Ne.symm hne, hold]
+    split <;> simp [Tbl.has_set_B, Tbl.has_erase_B, hid, Ne.symm hne, hold]
 
 theorem beginBlock_subIdx {s s' : State} {t : Time} (h : beginBlock s t = .ok s') (hk : Keyed s) (hi : SubIdx s) :
     SubIdx s' ∧ Keyed s' := by
